@@ -7,8 +7,9 @@ git checkout -q -- . ; rm -f tests/seed_demo*.rs
 for f in $OUT/*.rs; do cp $f tests/; done
 for f in $OUT/*.sh $OUT/*.py; do [ -e "$f" ] && cp $f tests/ ; done
 demos=$(cd $OUT; ls *.rs | sed 's/\.rs$//')
+FEAT=""; grep -q verif_hooks $OUT/*.rs && FEAT="--features verif-hooks"
 echo "== HEAD: demo must pass"
-for d in $demos; do timeout 900 cargo test --offline --test $d 2>&1 | grep -E "^test result|FAILED|panicked|error(\[|:)" | head -5; done
+for d in $demos; do timeout 900 cargo test --offline $FEAT --test $d 2>&1 | grep -E "^test result|FAILED|panicked|error(\[|:)" | head -5; done
 git apply $OUT/patch.diff || { echo "PATCH DOES NOT APPLY"; exit 3; }
 echo "== PATCHED: hooks build"
 cargo build --offline --features verif-hooks 2>&1 | grep -E "^error|warning: unused" | head -3
@@ -17,5 +18,5 @@ for d in $demos; do mv tests/$d.rs $WT/.hold_$d.rs; done
 timeout 1800 cargo test --workspace --no-fail-fast --offline 2>&1 | grep -E "^test result|FAILED|failed" | head -12
 for d in $demos; do mv $WT/.hold_$d.rs tests/$d.rs; done
 echo "== PATCHED: demo must fail"
-for d in $demos; do timeout 900 cargo test --offline --test $d 2>&1 | grep -E "^test result|FAILED" | head -5; done
+for d in $demos; do timeout 900 cargo test --offline $FEAT --test $d 2>&1 | grep -E "^test result|FAILED" | head -5; done
 git checkout -q -- . ; rm -f tests/seed_demo*.rs
